@@ -31,6 +31,7 @@ THEOREMS = [
     # which paths a replication glob selects (TsModel/Glob.lean, tied to fnmatch.fnmatch and to the real replicated sets)
     "Ts.Glob.glob_subtree",
     "Ts.Glob.glob_subtree_sibling",
+    "Ts.Glob.glob_suffix",
     "Ts.Glob.glob_star_all",
     "Ts.Glob.glob_literal",
     "Ts.Glob.replicated_iff",
